@@ -38,6 +38,22 @@ def anno_of_forest(f: list) -> str:
 	return 'dict[str, ' + anno_of_tree(f[1]) + ']' if f[0]['kids'] == [] and f[0]['ty'] == 'B' else 'tuple[' + ', '.join(anno_of_tree(t) for t in f) + ']'
 
 
+def program_of_table(rows: list[dict]) -> str:
+	"""a table of spec/SymExport.tla as a module: generic classes and functions whose parameter type is the row's type with
+	its arguments, in the table's insertion order (later classes are referred to by forward references)"""
+	name = {'M#C1': 'C1', 'M#C2': 'C2', 'X#int': 'int', 'X#list': 'list'}
+
+	def anno(ty: str, kids: list) -> str:
+		return name[ty] + (f'[{", ".join(anno(k["ty"], k["kids"]) for k in kids)}]' if kids else '')
+	parts = ["from typing import Generic, TypeVar\n\nT = TypeVar('T')\n"]
+	for r in rows:
+		if r['kind'] == 'class':
+			parts.append(f'class {name[r["key"]]}(Generic[T]):\n\tn: int\n\n\tdef __init__(self) -> None:\n\t\tself.n = 0\n')
+		else:
+			parts.append(f'def {r["key"].split("#")[1]}(p: \'{anno(r["types"], r["attrs"])}\') -> None: ...\n')
+	return '\n'.join(parts)
+
+
 def describe_table(db, module_path: str) -> dict:
 	out = {}
 	for key, sym in db.items(module_path):
@@ -141,6 +157,9 @@ def run(ctx: Ctx) -> int:
 		user = f'from vm_lib import K, Q, mk\n\nclass Holder:\n{fields}\tk: K\n\tdef __init__(self, k: K) -> None:\n\t\tself.k = k\n\n\tdef get(self) -> list[K]:\n\t\treturn [self.k, mk(1)]\n\ndef f({params}) -> dict[str, list[K]]:\n{body}\th = Holder(Q(1))\n\tks = h.get()\n\treturn {{\'a\': ks}}\n\ng = mk(2)\n'
 		jobs.append((f'shapes:{i}', {'vm_lib': lib, 'vm_user': user}, 'vm_user'))
 	jobs.append(('lib', {'vm_lib': lib}, 'vm_lib'))
+	tables = [json.loads(line) for line in res.lines('TABLE ')]
+	for i, tab in enumerate(tables[:: 3 if quick else 1]):
+		jobs.append((f'table:{i}', {'vm_tab': program_of_table(tab['rows'])}, 'vm_tab'))
 	real = ['example.json', 'rogw.tranp.compatible.libralies.classes'] if quick else ['example.json', 'example.FW.string', 'rogw.tranp.compatible.libralies.classes', 'rogw.tranp.compatible.libralies.type', 'tests.unit.rogw.tranp.implements.cpp.transpiler.fixtures.fixture_py2cpp', 'tests.unit.rogw.tranp.semantics.fixtures.fixture_reflections', 'rogw.tranp.lang.di', 'rogw.tranp.errors']
 	for m in real:
 		jobs.append((f'real:{m}', {}, m))
@@ -148,7 +167,7 @@ def run(ctx: Ctx) -> int:
 		results = list(ex.map(_roundtrip, jobs))
 	failures = [f for r in results for f in r['failures']]
 	nsym = sum(r['symbols'] for r in results)
-	ctx.log(f'{len(annos)} annotation shapes in {len(jobs) - len(real) - 1} generated modules + {len(real)} real modules: {nsym} symbols exported, unloaded, re-imported (twice): {len(failures)} discrepancies')
+	ctx.log(f'{len(annos)} annotation shapes and {len(tables[:: 3 if quick else 1])} tables (insertion orders of generic classes and functions) in {len(jobs) - len(real) - 1} generated modules + {len(real)} real modules: {nsym} symbols exported, unloaded, re-imported (twice): {len(failures)} discrepancies')
 	groups: dict[str, list] = {}
 	for f in failures:
 		groups.setdefault(f'{f["clause"]}:{f["label"].split(":")[0]}:{f["kind"]}', []).append(f)
@@ -161,6 +180,7 @@ def run(ctx: Ctx) -> int:
 		'traces_validated_against_impl': len(jobs),
 		'forests_checked_by_tlc': info[0] if info else '',
 		'annotation_shapes_replayed': len(annos),
+		'tables_replayed_as_programs': len(tables[:: 3 if quick else 1]),
 		'symbols_round_tripped': nsym,
 		'real_modules': real,
 		'design_level_counterexample_with_free_via': via.rc != 0,
